@@ -995,3 +995,62 @@ Definition sk_register : list ev :=
    Wr "entries";
    IfE;
    LoopE].
+
+Definition sk_tm_init : list ev :=
+  [Call "event_new";
+   Call "event_clear";
+   Call "thread_new";
+   Wr "running"].
+
+Definition sk_tm_start : list ev :=
+  [Call "thread_start";
+   Wr "running"].
+
+Definition sk_tm_stop : list ev :=
+  [Rd "running";
+   IfB;
+   Call "event_set";
+   Call "thread_join";
+   Wr "running";
+   Else;
+   IfE].
+
+Definition sk_kill_workers : list ev :=
+  [Call "active_children";
+   LoopB;
+   IfB;
+   IfB;
+   Call "remember_worker";
+   Else;
+   IfE;
+   Else;
+   IfE;
+   LoopE;
+   Call "getpid";
+   Call "ps_children";
+   LoopB;
+   IfB;
+   Call "getpid";
+   Continue;
+   Else;
+   IfE;
+   TryB;
+   Call "kill";
+   Handler "ProcessLookupError";
+   TryE;
+   LoopE].
+
+Definition sk_cm_init : list ev :=
+  [Wr "search_catalog";
+   Wr "global_constraints";
+   Wr "global_restrictions"].
+
+Definition sk_fs_stats : list ev :=
+  [Rd "stats";
+   Ret].
+
+Definition sk_rse_init : list ev :=
+  [Wr "msg"].
+
+Definition sk_fse_init : list ev :=
+  [Wr "msg"].
